@@ -6,7 +6,7 @@ from typing import Dict, List, Optional, Set, Tuple
 
 from .. import affine as A
 from ..symb import Sym
-from ..cp import batch, is_zero
+from ..cp import batch, is_zero, step_local
 from ..common import step_roles, init_roles, STEP_FN
 from ..effects import stores
 from ..model import norm, walk_no_nested, FuncInfo, AnalysisError
@@ -234,7 +234,7 @@ def rule_b(chk, prog):
     inf = prog.find_func("infiltration")
     chk.fn(inf.key)
     icall = [c for c, t in prog.calls_in(step) if getattr(t, "key", None) == inf.key][0]
-    f_irr = next((inf.params[i] for i, a in enumerate(icall.args) if isinstance(a, ast.Name) and a.id == "Irr"), None)
+    f_irr = next((inf.params[i] for i, a in enumerate(icall.args) if isinstance(a, ast.Name) and a.id == step_local(prog, "irr")), None)
     f_eff = next((inf.params[i] for i, a in enumerate(icall.args) if isinstance(a, ast.Attribute) and a.attr == "AppEff"), None)
     f_gs = next((inf.params[i] for i, a in enumerate(icall.args) if isinstance(a, ast.Name) and a.id == "growing_season"), None)
     if not (f_irr and f_eff and f_gs):
@@ -253,11 +253,12 @@ def rule_b(chk, prog):
             chk.violation("C20.b", f"{inf.module}:{inf.qualname}", construct, "the application efficiency has an effect although nothing is applied", loc=inf.loc(n.ast))
     # depth 0 / MaxIrr 0 -> Irr == 0 (constant propagation)
     cfgs = [{"IrrMngt.irrigation_method": 5, "IrrMngt.depth": 0}] + [{"IrrMngt.irrigation_method": m, "IrrMngt.MaxIrr": 0} for m in (1, 2, 3, 5)]
-    for r in batch(prog, cfgs, want_locals=["Irr"]):
+    irr_name = step_local(prog, "irr")
+    for r in batch(prog, cfgs, want_locals=[irr_name]):
         label = ", ".join(f"{k.split('.')[1]}={v}" for k, v in r.config.items())
         chk.valuation(label)
         for l in r.locals[True]:
-            v = l["Irr"]
+            v = l[irr_name]
             construct = f"Irr | {label}"
             if is_zero(v):
                 chk.ok("C20.b", STEP_FN, construct, "constant 0")
